@@ -117,6 +117,30 @@ def run(ctx, scn):
     if again != out and obs["kind"] == "ok":
         obs["kind"] = "not-idempotent"
     obs["changed"] = out != src
+    if scn.get("cli"):
+        # the command-line entry point rewriting a file in place must leave exactly format_source's output
+        from xonsh.formatter import cli
+        import contextlib
+
+        path = os.path.join(ctx["wd"], "inplace.xsh")
+        with open(path, "w", encoding="utf-8", newline="") as fh:
+            fh.write(src)
+        with contextlib.redirect_stderr(io.StringIO()), contextlib.redirect_stdout(io.StringIO()):
+            try:
+                cli.main([path])
+            except SystemExit:
+                pass
+        with open(path, encoding="utf-8", newline="") as fh:
+            on_disk = fh.read()
+        # (the entry point reads the file with universal newlines: a CRLF file that is otherwise
+        #  formatted is "unchanged" and keeps its line ends)
+        same = on_disk == out or on_disk.replace("\r\n", "\n") == out
+        obs["cli_same"] = same
+        if not same:
+            obs["same_tree"] = False
+            if obs["kind"] == "ok":
+                obs["kind"] = "file-rewritten-differently"
+            obs["detail"] = f"file after `xonsh format` in place: {on_disk[:200]!r}"
     res = {"src": src, "out": out, "feat": scn.get("feat", {}), "steps": [{"cmd": "format", "obs": obs}]}
     if again != out:
         res["again"] = again
